@@ -31,12 +31,19 @@ def C13 (_s : List Char) (d : Dump) (delims : List (Nat × TokenType)) (masked :
           -- a token overlapping [a, e) must be on the HIDDEN or COMMENT channel
           !(t.byte < e && a < t.byte + w) || t.chan == .HIDDEN || t.chan == .COMMENT)
 
-/-- C14: the expected `MissingExpected*` error at `at` and a zero-width recovery token there -/
-def C14 (_s : List Char) (d : Dump) (kind : ErrorKind) (at_ : Nat) (ty : TokenType) : Verdict :=
+/-- C14: the expected `MissingExpected*` error at `at` and a zero-width recovery token there.  `count` (1 for a
+single deleted delimiter) is the number of `)` known to be still open when the text was cut inside nested
+parentheses of an argument value: each of them is owed its own recovery token; the nested levels together and the
+argument list's own parenthesis are owed a report each. -/
+def C14 (_s : List Char) (d : Dump) (kind : ErrorKind) (at_ : Nat) (ty : TokenType) (count : Nat := 1) : Verdict :=
   let tw := tokWidths d.toks
   clause "returns" (d.outcome == .ok)
   ++ clause "error-reported-at" (d.errs.any fun e => e.kind == kind && e.byte == at_)
   ++ clause "recovery-token-at" (tw.any fun (t, w) => w == 0 && t.ty == ty && t.byte == at_)
+  -- the nested levels of one argument value share one report (`finalize_lexing` reports once per mode);
+  -- the argument list's own parenthesis has its own
+  ++ clause "nested-and-own-paren-reported" (min count 2 ≤ (d.errs.filter fun e => e.kind == kind && e.byte == at_).length)
+  ++ clause "every-open-paren-recovered" (count ≤ (tw.filter fun (t, w) => w == 0 && t.ty == ty && t.byte == at_).length)
 
 end Spec
 end SasLexer
